@@ -6,7 +6,10 @@ Files are Python bytes objects (possibly symbolic).  Every state-changing operat
 At operation `kill_at` the process "dies": the file system is snapshotted at that
 instant (for a write, after a prefix of `torn` bytes has reached the file), before any
 except/finally/with-exit of the code under test runs; the snapshot is what a later run
-would find.  The GzModel writes a fixed header when opened for writing, the payload
+would find.  In kill mode writes are BUFFERED like a real file object: data reaches the
+file at flush()/close(); at the kill instant every open file gets a prefix of `torn`
+bytes of its unflushed data (torn >= torn_all means all of it), so "written but never
+flushed" and "partly flushed" states are both explored.  The GzModel writes a fixed header when opened for writing, the payload
 bytes verbatim on write and a fixed trailer on close (framing only; deflate itself is C).
 """
 import types
@@ -21,8 +24,11 @@ class Killed(BaseException):
 
 
 class FS:
-    def __init__(self, fault_at=0, kill_at=0, torn=0):
+    def __init__(self, fault_at=0, kill_at=0, torn=0, torn_all=1 << 30):
         self.files = {}
+        self.open_files = []
+        self.buffered = kill_at > 0
+        self.torn_all = torn_all
         self.ops = 0
         self.fault_at = fault_at
         self.kill_at = kill_at
@@ -41,6 +47,11 @@ class FS:
         return self.ops == self.kill_at and self.snapshot is None
 
     def die(self):
+        for f in self.open_files:
+            if f.pending:
+                t = self.torn
+                f._put(f.pending if t >= self.torn_all or t >= len(f.pending) else f.pending[:t])
+                f.pending = b''
         self.snapshot = dict(self.files)
         self.killed = self.log[-1]
         raise Killed()
@@ -86,6 +97,9 @@ class PyFile:
         elif name not in fs.files:
             raise FileNotFoundError(2, 'No such file', name)
         self.pos = len(fs.files[name]) if 'a' in mode else 0
+        self.pending = b''
+        if writing:
+            fs.open_files.append(self)
 
     def _put(self, data):
         cur = self.fs.files[self.name]
@@ -97,10 +111,12 @@ class PyFile:
     def write(self, data):
         if self.text:
             data = data.encode()
-        if self.fs.tick('write', self.name):
-            t = self.fs.torn
-            self._put(data[:t] if 0 <= t < len(data) else data)
-            self.fs.die()
+        if self.fs.buffered:
+            self.pending = self.pending + data
+            if self.fs.tick('write', self.name):
+                self.fs.die()
+            return len(data)
+        self.fs.tick('write', self.name)
         self._put(data)
         return len(data)
 
@@ -118,6 +134,7 @@ class PyFile:
         return self.pos
 
     def truncate(self, size=None):
+        self.flush()
         if self.fs.tick('truncate', self.name):
             self.fs.die()
         if size is None:
@@ -130,14 +147,19 @@ class PyFile:
         return size
 
     def flush(self):
-        pass
+        if self.pending:
+            self._put(self.pending)
+            self.pending = b''
 
     def close(self):
         if not self.closed:
-            self.closed = True
             if any(c in self.mode for c in 'wa+'):
                 if self.fs.tick('close', self.name):
                     self.fs.die()
+                self.flush()
+                if self in self.fs.open_files:
+                    self.fs.open_files.remove(self)
+            self.closed = True
 
     def __enter__(self):
         return self
